@@ -349,7 +349,6 @@ def run_case(case, ctx, verbose=False):
                 if switch.get("kind"):
                     case["structure"] = not case["structure"]
                     switched = "kind"
-                    pending_mode = False
                 elif switch["patterns"] != case["patterns"]:
                     case["patterns"] = switch["patterns"]
                     switched = "patterns"
@@ -370,6 +369,10 @@ def run_case(case, ctx, verbose=False):
             vis1 = {p: v for p, v in vis1.items() if not p.startswith("//dirstat/")}
             shape0 = {p: v[0] for p, v in vis0.items()}
             shape1 = {p: v[0] for p, v in vis1.items()}
+            # a chmod is remembered whatever the node's kind is at that moment: if the declaration later becomes a
+            # structure node, the delayed mode still surfaces at the entry's next observable change
+            if any(e.get("k") == "chmod" for e in edits):
+                pending_mode = True
             if case["structure"]:
                 must = shape0 != shape1
                 # (also a chmod of an entry that was renamed or created in the same step: its path is not in vis0)
